@@ -99,15 +99,14 @@ func escapeStringLiteral(s string) string {
 			b.WriteString("''")
 		case '\\':
 			b.WriteString(`\\`)
-		case '\x00':
-			// Drop null bytes — invalid in SQL string literals.
 		case '\n':
 			b.WriteString(`\n`)
 		case '\r':
 			b.WriteString(`\r`)
-		case '\x1a': // Ctrl-Z (EOF on Windows)
-			b.WriteString(`\Z`)
 		default:
+			// every other byte as it is, control bytes included: the
+			// tokenizer reads them as part of the value and knows no escape
+			// for them (\Z is an error to it, a dropped NUL another value)
 			b.WriteByte(c)
 		}
 	}
